@@ -201,58 +201,7 @@ def make_case(i, rng, tier):
 
 
 # ---- equality / classification -----------------------------------------------------------------
-_ADDR = __import__("re").compile(r"0x[0-9a-fA-F]+")
-
-
-def same(a, b, depth=0):
-    """equal value of the same type (NaN-aware; -0.0 == 0.0).  Objects without value equality
-    (identity __eq__, hostile __eq__) are equal when they have the same type; texts are compared
-    with memory addresses normalised (str() of an identity object)."""
-    if a is b:
-        return True
-    if type(a) is not type(b):
-        return False
-    if depth > 40:
-        return True
-    try:
-        if isinstance(a, (float, Decimal)):
-            return bool(a == b) or (a != a and b != b)
-        if isinstance(a, complex):
-            return same(a.real, b.real) and same(a.imag, b.imag)
-        if isinstance(a, (str, bytes, bytearray)):
-            if a == b:
-                return True
-            ta = a if isinstance(a, str) else bytes(a).decode("latin-1")
-            tb = b if isinstance(b, str) else bytes(b).decode("latin-1")
-            return _ADDR.sub("0x", ta) == _ADDR.sub("0x", tb)
-        if isinstance(a, cabc.Mapping):
-            if len(a) != len(b):
-                return False
-            return all(same(x, y, depth + 1) for x, y in zip(a.items(), b.items()))
-        if isinstance(a, (list, tuple, deque)):
-            return len(a) == len(b) and all(same(x, y, depth + 1) for x, y in zip(a, b))
-        if isinstance(a, (set, frozenset)):
-            if len(a) != len(b):
-                return False
-            rest = list(b)
-            for x in a:
-                for i, y in enumerate(rest):
-                    if same(x, y, depth + 1):
-                        del rest[i]
-                        break
-                else:
-                    return False
-            return True
-        if isinstance(a, cabc.Iterator):
-            return True  # cannot compare one-shot results
-        if type(a).__eq__ is object.__eq__ or type(a).__module__.endswith("vmon.values"):
-            d1, d2 = getattr(a, "__dict__", None), getattr(b, "__dict__", None)
-            if isinstance(d1, dict) and isinstance(d2, dict) and not isinstance(a, type):
-                return same(d1, d2, depth + 1)
-            return True
-        return bool(a == b)
-    except Exception:
-        return False
+same = V.same_value
 
 
 def src_groups(v):
